@@ -31,6 +31,7 @@ def layout_proofs(strict=False):
         if strict:
             raise RuntimeError("tlapm did not prove LayoutProofs.tla:\n" + out[-3000:])
         return {"unavailable": "tlapm failed: " + out[-300:]}
-    return {"proved": int(m.group(1)), "theorems": ["BandSymmetric", "LoopIsBand", "CornerInBand",
+    return {"proved": int(m.group(1)), "theorems": ["BandSymmetric", "CornersSymmetric", "StepsSymmetric", "RelaxationsOnlyAdd",
+                                                   "WindowOneIsDiagonal", "LoopIsBand", "CornerInBand",
                                                    "RollingIndicesInside", "RollingReadsWhatWasWritten",
                                                    "RollingFinalIsCorner", "CompactLayout"]}
